@@ -148,19 +148,21 @@ func effectRole(fn *types.Func) string {
 	}
 	// the bucket wrapper's own encode-and-put / delete, when the per-kind helpers above them were merged or dropped
 	// (`setElement(e, present)`): put(key, encodable) and delete(key)
-	if rn := recvNamed(fn); rn != nil && effectProg != nil && rn.Obj().Name() == dbBucketType(effectProg) {
-		if f := effectProg.FuncOf(fn); f != nil {
-			rawPut, rawDel := effectProg.Method("chain", "DBBucket", "Put"), effectProg.Method("chain", "DBBucket", "Delete")
-			if ps.Len() == 2 && reaches(effectProg, fn, rawPut, 2) {
-				if _, isIface := ps.At(1).Type().Underlying().(*types.Interface); isIface {
-					return "put"
+	if effectProg != nil {
+		if is, skip := isBucketWrapperFn(effectProg, fn); is {
+			if f := effectProg.FuncOf(fn); f != nil {
+				rawPut, rawDel := effectProg.Method("chain", "DBBucket", "Put"), effectProg.Method("chain", "DBBucket", "Delete")
+				if ps.Len() == 2+skip && reaches(effectProg, fn, rawPut, 2) {
+					if _, isIface := ps.At(1 + skip).Type().Underlying().(*types.Interface); isIface {
+						return "put"
+					}
+				}
+				if ps.Len() == 1+skip && reaches(effectProg, fn, rawDel, 2) {
+					return "del"
 				}
 			}
-			if ps.Len() == 1 && reaches(effectProg, fn, rawDel, 2) {
-				return "del"
-			}
+			return ""
 		}
-		return ""
 	}
 	if ps.Len() == 0 || ps.Len() > 3 || !isID(ps.At(0).Type()) {
 		return ""
@@ -650,7 +652,7 @@ func c02r2(c *Ctx) {
 				}
 				// the bucket wrapper's own put / delete count only where they stem from a function that is handed the
 				// block's update (element work), not from the state writers next to it
-				if rn := recvNamed(call.Fn); rn != nil && rn.Obj().Name() == dbBucketType(c.P) {
+				if is, _ := isBucketWrapperFn(c.P, call.Fn); is {
 					orig := c.P.OrigNode(call.Expr)
 					if orig == nil {
 						orig = call.Expr
@@ -777,11 +779,22 @@ func c02r3(c *Ctx) {
 				continue
 			}
 			for _, c2 := range lf.Calls(false) {
-				if c2.Fn != nil && c2.Fn.Name() == "putRaw" && len(c2.Expr.Args) == 2 {
+				// the raw put of the bucket wrapper: `db.bucket(B).putRaw(key, v)`, or with the wrapper dissolved
+				// `db.putRaw(db.bucket(B), key, v)`
+				isWrapper, skip := isBucketWrapperFn(c.P, c2.Fn)
+				if c2.Fn != nil && isWrapper && len(c2.Expr.Args) == 2+skip && reaches(c.P, c2.Fn, c.P.Method("chain", "DBBucket", "Put"), 1) {
 					// key function and bucket
-					if kc, ok := ast.Unparen(c2.Expr.Args[0]).(*ast.CallExpr); ok && lf.Callee(kc) != nil {
+					keyArg, valArg := c2.Expr.Args[skip], c2.Expr.Args[skip+1]
+					if _, isIface := lf.TypeOf(valArg).Underlying().(*types.Interface); isIface {
+						continue
+					}
+					if kc, ok := ast.Unparen(keyArg).(*ast.CallExpr); ok && lf.Callee(kc) != nil {
 						bucket := ""
-						if rcv, ok := ast.Unparen(c2.Recv()).(*ast.CallExpr); ok && len(rcv.Args) == 1 {
+						bexpr := c2.Recv()
+						if skip == 1 {
+							bexpr = c2.Expr.Args[0]
+						}
+						if rcv, ok := ast.Unparen(bexpr).(*ast.CallExpr); ok && len(rcv.Args) == 1 {
 							bucket = ir.ExprString(rcv.Args[0])
 						}
 						var params []string
@@ -799,7 +812,7 @@ func c02r3(c *Ctx) {
 							}
 						}
 						val := "?"
-						if se, ok := ast.Unparen(c2.Expr.Args[1]).(*ast.SliceExpr); ok {
+						if se, ok := ast.Unparen(valArg).(*ast.SliceExpr); ok {
 							for i, p := range params {
 								if id, ok := ast.Unparen(se.X).(*ast.Ident); ok && id.Name == p {
 									val = fmt.Sprintf("p%d", i)
